@@ -100,7 +100,9 @@ pub fn vcheck(what: &str, c: bool) {
 /// by `proof_for_contract`: Kani checks the spliced contract itself, so this is a
 /// no-op there; the native replay evaluates it on the concrete counterexample.
 pub fn vpost<F: FnOnce() -> bool>(what: &str, c: F) {
-    #[cfg(not(kani))]
+    // (with --cfg verif_assert, used only when a failing harness is re-run for a counterexample,
+    //  the postcondition is also asserted so that Kani's concrete playback has a failing assertion)
+    #[cfg(any(not(kani), verif_assert))]
     vcheck(what, c());
 }
 
